@@ -14,6 +14,8 @@ import (
 	"time"
 	"unicode/utf8"
 
+	"github.com/gookit/color"
+
 	"verif.local/vmon"
 )
 
@@ -52,6 +54,19 @@ func TestVerifC37(t *testing.T) {
 	var fileOff int64
 	n := r.N(60000, 2000000)
 	for i := 0; i < n; i++ {
+		if i == n/2 {
+			// second half: standard output is a terminal that supports colours (what the destination detects at start-up)
+			oldLevel := color.ForceSetColorLevel(color.Level256)
+			oldEnable := color.Enable
+			color.Enable = true
+			defer func() { color.ForceSetColorLevel(oldLevel); color.Enable = oldEnable }()
+			for _, d := range l.destinations {
+				if ds, ok := d.(*destinationStdout); ok {
+					ds.useColor = true
+					r.Count("stdout_destination_switched_to_colour_terminal", 1)
+				}
+			}
+		}
 		msg := c37Message(rng)
 		level := Level(1 + rng.IntN(4))
 		now = time.Unix(1_600_000_000+int64(rng.IntN(400_000_000)), int64(rng.IntN(1_000_000_000))).In([]*time.Location{time.UTC, time.Local, time.FixedZone("x", 5*3600+1800)}[rng.IntN(3)])
@@ -113,7 +128,7 @@ func TestVerifC37(t *testing.T) {
 			r.Sample(map[string]any{"message": fmt.Sprintf("%q", want), "line": out.String()})
 		}
 	}
-	r.Finish("messages assembled from control characters 0x00-0x1F/0x7F, quotes, backslashes, newlines, U+2028/9, BOM, non-printable runes above U+FFFF, invalid UTF-8 (lone bytes, surrogates, out of range), HTML/JSON-looking text, occasionally 512 KiB, passed through format+args as the server does, at all 4 levels, virtual timestamps in 3 zones; both the stdout and the file destination of the real Logger (Structured). Oracle: exactly one '\\n'-terminated line, encoding/json decodes it to an object with exactly timestamp/level/message, timestamp == virtual time, level text maps back, message == Sprintf result with invalid UTF-8 replaced by U+FFFD. non-trivial = message with quotes/backslashes/newlines/control/non-printable/invalid bytes",
+	r.Finish("messages assembled from control characters 0x00-0x1F/0x7F, quotes, backslashes, newlines, U+2028/9, BOM, non-printable runes above U+FFFF, invalid UTF-8 (lone bytes, surrogates, out of range), HTML/JSON-looking text, occasionally 512 KiB, passed through format+args as the server does, at all 4 levels, virtual timestamps in 3 zones; both the stdout and the file destination of the real Logger (Structured); in the second half of the run the stdout destination believes it writes to a colour terminal. Oracle: exactly one '\\n'-terminated line, encoding/json decodes it to an object with exactly timestamp/level/message, timestamp == virtual time, level text maps back, message == Sprintf result with invalid UTF-8 replaced by U+FFFD. non-trivial = message with quotes/backslashes/newlines/control/non-printable/invalid bytes",
 		"oracle uses encoding/json as the JSON definition")
 }
 
